@@ -34,7 +34,7 @@ ASSUMPTIONS = [
 ]
 PROBES = ["faulty_link_before_injection", "failure_frame_destroyed_by_line", "threaded.runs", "threaded.preempted_in_proxy", "kind.error", "kind.rstack", "kind.silent", "kind.lost", "kind.eof", "kind.close", "workload.idle", "workload.one", "workload.queued",
           "workload.reset", "workload.startup", "workload.scan", "reported", "reported_twice", "silent_detected_by_retries", "silent_during_reset_timeout", "silent_but_nak.nak", "silent_but_nak.naklast", "silent_but_chatty",
-          "data_received_raised", "inject_at_timer_deadline", "calls_in_progress_at_injection", "caller_cancelled_after_injection", "failure_before_registration", "serial_style_transport", "second_connection_of_one_ezsp_object", "registry_history.overlap", "registry_history.churn", "registry_history.both", "command_after_report_raised_other_than_ezsp_error", "sched.batch", "sched.reorder", "sched.join"]
+          "data_received_raised", "inject_at_timer_deadline", "calls_in_progress_at_injection", "caller_cancelled_after_injection", "failure_before_registration", "failure_glued_to_response", "serial_style_transport", "second_connection_of_one_ezsp_object", "registry_history.overlap", "registry_history.churn", "registry_history.both", "command_after_report_raised_other_than_ezsp_error", "sched.batch", "sched.reorder", "sched.join"]
 
 WORKLOADS = ("idle", "one", "queued", "reset", "startup", "scan")
 KINDS = ("error", "rstack", "silent", "lost", "eof", "close")
@@ -88,6 +88,9 @@ def plan(tier):
                     # the callers give up (are cancelled) while the link layer is still retrying: the failure must be reported all the same
                     for ca in (2.0, 12.0):
                         sweeps.append(("inject", {"workload": w, "kind": kind, "code": None, "at": at, "sched": False, "cancel_after": ca}))
+    # the failure frame glued to the response of the scan command (one read)
+    for kind, code in (("error", ERR_CODES[0]), ("rstack", RST_CODES[0]), ("error", ERR_CODES[1])):
+        sweeps.append(("inject", {"workload": "scan", "kind": kind, "code": code, "at": 1e9, "sched": False, "glue": True}))
     # directed timer ties: the failure lands exactly on a pending deadline (reset timeout, command timeout, ACK timeout) and both
     # callbacks run in ONE loop iteration, in either order (this is the schedule on which F5 fired)
     for w in ("reset", "startup", "one", "queued"):
@@ -121,7 +124,7 @@ def run(scenario, params, tape, detail=False):
         return run_threaded_one(params, tape, detail)
     if scenario == "inject":
         return run_one(params["workload"], params["kind"], params["code"], params["at"], tape, params.get("sched", True), detail, cancel_after=params.get("cancel_after"),
-                       prefail=params.get("prefail", False), rst_delay=params.get("rst_delay", 0.3), hist=params.get("hist"), deaf=params.get("deaf"), reconnect=params.get("reconnect", False), swallow=params.get("swallow", False))
+                       prefail=params.get("prefail", False), rst_delay=params.get("rst_delay", 0.3), hist=params.get("hist"), deaf=params.get("deaf"), reconnect=params.get("reconnect", False), swallow=params.get("swallow", False), glue=params.get("glue", False))
     w = WORKLOADS[tape.draw(len(WORKLOADS), "workload")]
     kind = KINDS[tape.draw(len(KINDS), "kind")]
     code = None
@@ -145,7 +148,7 @@ CANCEL_AFTER = (0.3, 1.0, 2.5, 6.0, 11.0, 13.0)
 HISTORIES = (None, "overlap", "churn", "both")
 
 
-def run_one(workload, kind, code, at, tape, sched, detail, dry=False, faulty=False, cancel_after=None, prefail=False, rst_delay=0.3, hist=None, deaf=None, reconnect=False, swallow=False):
+def run_one(workload, kind, code, at, tape, sched, detail, dry=False, faulty=False, cancel_after=None, prefail=False, rst_delay=0.3, hist=None, deaf=None, reconnect=False, swallow=False, glue=False):
     sock = workload == "startup"
     if faulty:
         # link faults (and read chunking, NCP window) until the injection; the failure itself is then delivered over a clean line
@@ -174,6 +177,10 @@ def run_one(workload, kind, code, at, tape, sched, detail, dry=False, faulty=Fal
         d = delays.get(req.name, 0.0)
         req.nrsp += 1
         ncp.emit(payload, d, "rsp", req.seq)
+        if glue and req.name == "startScan" and st["t_inj"] is None and st.get("t_ready") is not None:
+            # the NCP fails right after answering: its failure frame reaches the host glued to the response, in ONE read
+            probe("failure_glued_to_response")
+            inject()
 
     ncp.deliver = deliver
 
@@ -291,6 +298,8 @@ def run_one(workload, kind, code, at, tape, sched, detail, dry=False, faulty=Fal
         else:
             ez.add_callback(cb)
         st["t_plain"] = loop.time()
+        if glue:
+            rig.line.n2h.coalesce = lambda: True  # frames due at the same instant are handed over in one read
         if swallow:
             probe("serial_style_transport")
             rig.transport.swallow_protocol_errors = True
